@@ -201,7 +201,12 @@ Reconsider(b) ==
          c2 == cand \cup {x \in clr : x \in data /\ x \in linked /\ Worse(tip, x, seq)}
          a == Activate(E, [cand |-> c2, failed |-> f2, tip |-> tip, ok |-> TRUE])
      IN /\ cand' = a.cand /\ failed' = a.failed /\ tip' = a.tip
-  /\ ninv' = ninv + 1 /\ minv' = {x \in minv : ~(b \in Anc(x) \/ x \in Anc(b))}
+  \* reconsiderblock lifts the marks of b's ancestors and descendants only: a block on a sibling branch that was marked together
+  \* with a lifted root (invalidateblock marks all known descendants) stays invalid by the operator's earlier decision
+  /\ ninv' = ninv + 1
+  /\ LET rel(x) == b \in Anc(x) \/ x \in Anc(b)
+         lifted == {x \in minv : rel(x)}
+     IN minv' = (minv \ lifted) \cup {y \in hdr : y \in failed /\ ~rel(y) /\ \E x \in lifted : x \in Anc(y)}
   /\ UNCHANGED <<world, hdr, data, linked, seq, nextSeq, unlinked>>
   /\ lastAct' = <<"reconsider", b>> /\ lastRes' = <<"none">>
 
